@@ -4,6 +4,7 @@ import ast
 from xlsa import Unmodelled, AnchorMissing
 from xlsa.consteval import Ref, Obj, Unfoldable
 from xlsa.load import walk_local, names_in, dotted
+from xlsa.guards import Interp, Rec, PyModel, Opaque
 from xlsa import flow
 from .common import func_params, value_returns, last_return, XLERR, XLT, raise_class, is_excel_error_ref
 
@@ -69,13 +70,22 @@ def rule_1(ctx):
             got = deps.params_reaching(a) if a is not None else set()
             ctx.expect(got == {mine}, c, f'PMT call #{i}: {mine} -> numpy_financial.pmt({lib})',
                        f'numpy_financial.pmt({lib}=...) receives `{ast.unparse(a) if a is not None else "nothing"}`')
-    # the call reached in the default (EXCEL) compatibility mode uses when='end'
-    last = last_return(fn)
-    if last is not None:
-        lc = [c for c in ast.walk(last.value) if isinstance(c, ast.Call) and ctx.res.resolve(c.func, f.module) == 'ext:numpy_financial.pmt']
-        w = _kw(lc[0], 'when', 4) if lc else None
-        ctx.expect(w is not None and isinstance(w, ast.Constant) and w.value in ('end', 0), fn, 'PMT pays at period end',
-                   'the default PMT path does not use end-of-period payments')
+    # the call reached in the default (EXCEL) compatibility mode uses when='end', whatever `type` is
+    for tval in (0, 1):
+        seen = {}
+
+        def pmt_model(*a, **kw):
+            seen['when'] = kw.get('when', a[4] if len(a) > 4 else 'end')
+            return 1.0
+        env = {p_.name: 1.0 for p_ in f.params}
+        env['type'] = tval
+        it = Interp(ctx.a, f.module, env, call_models={'ext:numpy_financial.pmt': pmt_model}, scope_fn=fn, inline_pkg=True)
+        try:
+            it.run(fn.body)
+        except Unmodelled as exc:
+            raise Unmodelled(f'PMT: {exc}')
+        ctx.expect(seen.get('when') in ('end', 0), fn, f'PMT pays at period end (type={tval})',
+                   f'in the default compatibility mode PMT(type={tval}) calls numpy_financial.pmt with when={seen.get("when")!r}')
     f = _reg(ctx, 'IRR')
     fn = f.node
     p = func_params(fn)
@@ -86,21 +96,31 @@ def rule_1(ctx):
         _no_truthiness_filter(ctx, _reg(ctx, name), name)
     fm = ctx.mod('xlfunctions.financial')
     xi = fm.func('_xirr')
-    nw = [c for c in flow.calls_in(xi) if ctx.res.resolve(c.func, fm) == 'ext:scipy.optimize.newton']
-    ok = len(nw) == 1 and isinstance(nw[0].args[0], ast.Lambda)
+    nw = [c for c in ast.walk(xi) if isinstance(c, ast.Call) and ctx.res.resolve(c.func, fm) == 'ext:scipy.optimize.newton']
+    ok = len(nw) == 1 and len(nw[0].args) >= 1
     if ok:
-        lam = nw[0].args[0]
-        inner = lam.body
+        target = nw[0].args[0]
+        px = func_params(xi)
+        inner, rparam = None, None
+        if isinstance(target, ast.Lambda):
+            inner, rparam = target.body, target.args.args[0].arg
+        elif isinstance(target, ast.Name):
+            defs = [d for d in ast.walk(xi) if isinstance(d, ast.FunctionDef) and d.name == target.id]
+            if len(defs) == 1:
+                rr = [r_ for r_ in ast.walk(defs[0]) if isinstance(r_, ast.Return)]
+                if len(rr) == 1:
+                    inner, rparam = rr[0].value, defs[0].args.args[0].arg
         ok = isinstance(inner, ast.Call) and ctx.res.resolve(inner.func, fm) == 'pkg:xlfunctions.financial:_xnpv' \
-            and [ast.unparse(a) for a in inner.args] == [lam.args.args[0].arg, func_params(xi)[0], func_params(xi)[1]]
-        ok = ok and len(nw[0].args) > 1 and ast.unparse(nw[0].args[1]) == func_params(xi)[2]
+            and [ast.unparse(a) for a in inner.args] == [rparam, px[0], px[1]]
+        guess = nw[0].args[1] if len(nw[0].args) > 1 else next((k.value for k in nw[0].keywords if k.arg == 'x0'), None)
+        ok = ok and guess is not None and ast.unparse(guess) == px[2]
     ctx.expect(ok, xi, 'XIRR: Newton on r -> _xnpv(r, values, dates) from the guess',
                '_xirr does not solve _xnpv(r, values, dates) = 0 for r starting at the guess')
     ctx.floor(14, 'library bindings')
 
 
 def _no_truthiness_filter(ctx, f, name):
-    fn = f.node
+    fn = ctx.inl(f.node, keep=('_xnpv', '_xirr'))
     bad = []
     for c in flow.calls_in(fn):
         if isinstance(c.func, ast.Attribute) and c.func.attr == 'flatten' and not ctx.res.resolve(c.func, f.module):
@@ -224,7 +244,7 @@ def rule_3(ctx):
 def rule_4(ctx):
     for name in ('XIRR', 'XNPV'):
         f = _reg(ctx, name)
-        fn = f.node
+        fn = ctx.inl(f.node, keep=('_xnpv', '_xirr'))
         guards = [n for n in walk_local(fn) if isinstance(n, ast.If) and isinstance(n.test, ast.Compare) and isinstance(n.test.ops[0], ast.NotEq)
                   and all(isinstance(x, ast.Call) and isinstance(x.func, ast.Name) and x.func.id == 'len' for x in [n.test.left, n.test.comparators[0]])
                   and any(isinstance(r, ast.Raise) and raise_class(ctx, r) == XLERR + 'NumExcelError' for r in n.body)]
@@ -297,24 +317,37 @@ def rule_5(ctx):
     ctx.expect(ok, fn, 'NPV: flow i discounted by (1+rate)^(i+1)', why)
     fm = ctx.mod('xlfunctions.financial')
     xn = fm.func('_xnpv')
+    px = func_params(xn)
     r = last_return(xn)
     ok = False
     if r is not None:
-        txt = ast.unparse(r.value)
         pows = [b for b in ast.walk(r.value) if isinstance(b, ast.BinOp) and isinstance(b.op, ast.Pow)]
         if len(pows) == 1:
             ex = pows[0].right
-            ok = isinstance(ex, ast.BinOp) and isinstance(ex.op, ast.Div) and isinstance(ex.right, ast.Constant) and ex.right.value in (365, 365.0) \
-                and isinstance(ex.left, ast.BinOp) and isinstance(ex.left.op, ast.Sub) and ast.unparse(ex.left.right).endswith('[0]') \
+            try:
+                denom = ctx.fold(ex.right, fm) if isinstance(ex, ast.BinOp) and isinstance(ex.op, ast.Div) else None
+            except Exception:
+                denom = None
+            ok = denom in (365, 365.0) and isinstance(ex.left, ast.BinOp) and isinstance(ex.left.op, ast.Sub) \
+                and ast.unparse(ex.left.right) == f'{px[2]}[0]' \
                 and any(isinstance(b, ast.BinOp) and isinstance(b.op, ast.Div) and b.right is pows[0] for b in ast.walk(r.value))
-            base_ok = ast.unparse(pows[0].left).replace(' ', '') in ('1.0+rate', '1+rate', 'rate+1', 'rate+1.0', '(1.0+rate)')
-            ok = ok and base_ok
+            try:
+                from .common import Lin, linear
+                base = linear(pows[0].left, {px[0]: Lin.var('rate')})
+                ok = ok and base == Lin(1, {'rate': 1})
+            except Unmodelled:
+                ok = False
     ctx.expect(ok, xn, 'XNPV: v_i / (1+rate)^((d_i - d_0)/365)', '_xnpv does not discount each flow by (1+rate)^((d_i-d_0)/365)')
     f = _reg(ctx, 'SLN')
-    r = last_return(f.node)
     p = func_params(f.node)
-    ok = r is not None and ast.unparse(r.value).replace(' ', '') == f'({p[0]}-{p[1]})/{p[2]}'
-    ctx.expect(ok, f.node, 'SLN = (cost - salvage) / life', f'SLN returns `{ast.unparse(r.value) if r else "?"}`')
+    wrong = []
+    for cost, salvage, life, want in ((10, 2, 4, 2.0), (100, 10, 9, 10.0), (5, 5, 2, 0.0), (1000, 0, 8, 125.0)):
+        it = Interp(ctx.a, f.module, {p[0]: cost, p[1]: salvage, p[2]: life}, scope_fn=f.node, inline_pkg=True)
+        out = it.run(f.node.body)
+        if not (out.end == 'return' and out.value == want):
+            wrong.append((cost, salvage, life, out.value, want))
+    ctx.expect(not wrong, f.node, 'SLN = (cost - salvage) / life',
+               f'SLN{wrong[0][:3]} gives {wrong[0][3]!r}, expected {wrong[0][4]!r}' if wrong else '')
     ctx.floor(3, 'closed-form shapes')
 
 
